@@ -347,6 +347,75 @@ theorem fixpoint_expr_text {cx : Ctx} {ix : Idx} (hI : IdxInj ix) {e : Ir.Expr} 
   cases ht2
   rfl
 
+/-- **fixpoint_stmt** (the statement forms of the C03 model: expression statement, `return`, initialised definition).
+    The statement the exporter model of C01 generates (`GenHlsl.genStmt`: `generate_statement`,
+    `generate_variable_definition`), read back by the front end, elaborates in the exported environment to the
+    first-generation statement: the conversion to the return type / to the variable's type is found again and applied to
+    the same effect.  (`if` / loops / `switch` / blocks carry no conversion of their own — conditions are elaborated
+    like expression statements — and are outside the C03 statement model; their expressions are covered by
+    `fixpoint_expr`, their print / parse round trip by C09.) -/
+theorem fixpoint_stmt {Γ Γ' : Env} (hR : Renamed Γ Γ') {nm : Names} {cx : Ctx} {ix : Idx}
+    (hA : NamesAgree cx ix nm Γ') (dbg dbg' : Bool) {s : SStmt} {st : IStmt} (hs : SrcStmtOk s)
+    (hel : elabStmt dbg Γ s = .ok st) (hp : OutArgsPlainStmt Γ st)
+    {stI : Ir.Stmt} (he : eraseStmt ix cx.vty stI = some st) {sa : HlslAst.Stmt} (hg : genStmt cx stI = .ok sa) :
+    ∃ s', readBackStmt nm sa = some s' ∧ elabStmt dbg' Γ' s' = .ok st := by
+  cases stI with
+  | expr e =>
+    simp only [eraseStmt] at he
+    cases hee : erase ix e with
+    | none => simp [hee] at he
+    | some i =>
+      simp [hee] at he; subst he
+      simp only [genStmt] at hg
+      cases hge : genExpr cx e with
+      | error x => simp [hge, Except.map] at hg
+      | ok a =>
+        simp [hge, Except.map] at hg; subst hg
+        obtain ⟨s', hrb, hu⟩ := bridge_square hA hee hge
+        exact ⟨.expr s', by simp [readBackStmt, hrb], reelab_stmt_no_new_casts hR dbg dbg' hs hel hp (.expr hu)⟩
+  | ret eo =>
+    cases eo with
+    | none =>
+      simp [eraseStmt] at he; subst he
+      simp [genStmt, genOptExpr, Except.map] at hg; subst hg
+      exact ⟨.ret none, by simp [readBackStmt], reelab_stmt_no_new_casts hR dbg dbg' hs hel hp .retNone⟩
+    | some e =>
+      simp only [eraseStmt] at he
+      cases hee : erase ix e with
+      | none => simp [hee] at he
+      | some i =>
+        simp [hee] at he; subst he
+        simp only [genStmt, genOptExpr] at hg
+        cases hge : genExpr cx e with
+        | error x => simp [hge, Except.map] at hg
+        | ok a =>
+          simp [hge, Except.map] at hg; subst hg
+          obtain ⟨s', hrb, hu⟩ := bridge_square hA hee hge
+          exact ⟨.ret (some s'), by simp [readBackStmt, hrb], reelab_stmt_no_new_casts hR dbg dbg' hs hel hp (.ret hu)⟩
+  | var id init =>
+    cases init with
+    | none => simp [eraseStmt] at he
+    | some e =>
+      simp only [eraseStmt] at he
+      cases hee : erase ix e with
+      | none => simp [hee] at he
+      | some i =>
+        simp [hee] at he; subst he
+        simp only [genStmt, genVarDef] at hg
+        cases htn : typeName (cx.vty (.loc id)) with
+        | error x => simp [htn] at hg
+        | ok tn =>
+          simp only [htn, genOptExpr] at hg
+          cases hge : genExpr cx e with
+          | error x => simp [hge, Except.map] at hg
+          | ok a =>
+            simp [hge, Except.map] at hg; subst hg
+            obtain ⟨s', hrb, hu⟩ := bridge_square hA hee hge
+            exact ⟨.init (eraseTy (cx.vty (.loc id))) s',
+              by simp [readBackStmt, hrb, RsslVerif.Lemmas.FixpointBridge.tyOfName_typeName _ _ htn],
+              reelab_stmt_no_new_casts hR dbg dbg' hs hel hp (.init hu)⟩
+  | _ => simp [eraseStmt] at he
+
 /-! ### non-vacuity: `a = b + 3` with `int a, b` -/
 
 def cxEx : Ctx where
